@@ -331,7 +331,37 @@ func c05All(c *Ctx, doc []byte, acc bool, full bool, tags ...string) {
 	}
 }
 
+// c05Literal: a sequence of literal units of spec/JsonString.tla (well formed or broken, as the specification says) as a
+// document, an element, a member value and a member name through every syntax-only consumer
+func c05Literal(c *Ctx, v *strVec) {
+	c.Nontrivial()
+	for _, vr := range []int{int(c.Seed), int(c.Seed) + 1} {
+		lits, _, ok := renderLit(v, vr)
+		if !ok {
+			c.SpecError("C05", "unknown literal unit", v)
+			return
+		}
+		for _, front := range []int{0, 3, 8, 13} {
+			doc := `"` + strings.Repeat(strPad, front) + strings.Join(lits, "") + `"`
+			if stdjson.Valid([]byte(doc)) != v.OK {
+				c.SpecError("C05", "encoding/json.Valid disagrees with JsonString.WellFormed on "+doc, v)
+				return
+			}
+			c.Case()
+			c05All(c, []byte(doc), v.OK, true, "literal")
+			c05All(c, []byte("["+doc+"]"), v.OK, false, "literal")
+			c05All(c, []byte(`{"k":`+doc+`,"l":1}`), v.OK, false, "literal")
+			c05All(c, []byte("{"+doc+":1}"), v.OK, false, "literal")
+		}
+	}
+}
+
 func c05Vector(c *Ctx, raw stdjson.RawMessage) {
+	var sv strVec
+	if stdjson.Unmarshal(raw, &sv) == nil && sv.Dir == "unesc" {
+		c05Literal(c, &sv)
+		return
+	}
 	var v grammarVec
 	if err := stdjson.Unmarshal(raw, &v); err != nil {
 		c.SpecError("C05", "bad vector: "+err.Error(), string(raw))
